@@ -115,6 +115,17 @@ func (x *exec) call(fr *frame, s *State, cc *ssa.CallCommon, instr ssa.Value, po
 	return x.unknownCall(fr, s, "dynamic call "+cc.Value.Name(), args, resT, pos)
 }
 
+func sharesProp(a, b []string) bool {
+	for _, p := range a {
+		for _, q := range b {
+			if p == q {
+				return true
+			}
+		}
+	}
+	return false
+}
+
 func resultType(sig *types.Signature) types.Type {
 	switch sig.Results().Len() {
 	case 0:
@@ -340,7 +351,16 @@ func (x *exec) applyContract(fr *frame, s *State, con *Contract, sig *types.Sign
 		if label == "" {
 			label = fmt.Sprint(i + 1)
 		}
-		x.oblig(fr, s, "pre."+short, label, pos, x.evalBool(r.E, env), r.Props)
+		if len(r.Props) > 0 && x.con != nil && !sharesProp(r.Props, x.con.Props) {
+			// a precondition tagged for other properties only concerns proofs of those properties
+			continue
+		}
+		g, ok := x.evalBoolModeOpt(r.E, env)
+		if !ok {
+			// a clause over bigval() cannot be stated in a bit-vector proof: the big.Int value is not tracked there
+			continue
+		}
+		x.oblig(fr, s, "pre."+short, label, pos, g, r.Props)
 	}
 	pre := s.clone()
 	resT := resultType(sig)
@@ -383,6 +403,9 @@ func (x *exec) applyContract(fr *frame, s *State, con *Contract, sig *types.Sign
 	post.st = s
 	x.bindResults(post.vars, con, res, sig)
 	for _, e := range con.Ensures {
+		if e.Local && !(x.con != nil && x.con.Ghost) {
+			continue // `proves` clause: only ghost lemmas over the contract may use it
+		}
 		// postconditions over the callee's own locals are facts about its body, not about the call
 		if t, ok := x.evalBoolLocalsOpt(e.E, &post); ok {
 			x.assume(s, t)
@@ -391,12 +414,26 @@ func (x *exec) applyContract(fr *frame, s *State, con *Contract, sig *types.Sign
 	return res
 }
 
+// evalBoolModeOpt evaluates a clause; ok is false when it speaks about bigval() in a bit-vector proof.
+func (x *exec) evalBoolModeOpt(e Expr, env *Env) (t string, ok bool) {
+	defer func() {
+		if r := recover(); r != nil {
+			if u, isU := r.(unsupported); isU && strings.Contains(u.msg, "bigval() needs arith int") {
+				t, ok = "", false
+				return
+			}
+			panic(r)
+		}
+	}()
+	return x.evalBool(e, env), true
+}
+
 // evalBoolLocalsOpt evaluates a postcondition at a call site; ok is false when it mentions an
 // identifier that only exists inside the callee (a function-level local).
 func (x *exec) evalBoolLocalsOpt(e Expr, env *Env) (t string, ok bool) {
 	defer func() {
 		if r := recover(); r != nil {
-			if u, isU := r.(unsupported); isU && strings.Contains(u.msg, "unknown identifier") {
+			if u, isU := r.(unsupported); isU && (strings.Contains(u.msg, "unknown identifier") || strings.Contains(u.msg, "bigval() needs arith int")) {
 				t, ok = "", false
 				return
 			}
@@ -455,6 +492,14 @@ func (x *exec) applyModifies(s *State, con *Contract, env *Env, args []*Val) {
 func (x *exec) havocTarget(s *State, m *Clause, env *Env) {
 	text := m.Text
 	switch {
+	case strings.HasPrefix(text, "bigval("):
+		ce, ok := m.E.(*ECall)
+		if !ok || len(ce.Args) != 1 {
+			fail("modifies %s: bigval(e)", text)
+		}
+		v := x.eval(ce.Args[0], env, nil)
+		h := x.h.get(s, bigvalArr, x.bigvalSort())
+		x.h.set(s, bigvalArr, x.bigvalSort(), Sto(h, x.term(v), x.c.FreshConst("hv", x.c.SortOf(MathInt))))
 	case strings.HasPrefix(text, "csprng("):
 		// the provenance flag of one object may change
 		ce, ok := m.E.(*ECall)
@@ -512,6 +557,15 @@ func (x *exec) evalLoc(e Expr, env *Env) (*Loc, types.Type) {
 	case *ESel:
 		xv := x.eval(n.X, env, nil)
 		p, ok := xv.Typ.Underlying().(*types.Pointer)
+		if !ok {
+			// a struct held by value inside an addressable object (p.a.b): address it through its parent
+			if _, isSel := n.X.(*ESel); isSel {
+				if pl, pt := x.evalLoc(n.X, env); pl != nil && pl.K == LObj {
+					xv = &Val{Typ: types.NewPointer(pt), L: pl, T: pl.Ref}
+					p, ok = xv.Typ.Underlying().(*types.Pointer)
+				}
+			}
+		}
 		if !ok || xv.L == nil {
 			fail("modifies: %s is not a pointer to a struct", ExprString(n.X))
 		}
